@@ -69,6 +69,18 @@ ASSUME TakesOk(Code4)
 \* ... and it would not be at offsets 6 or 7 (the check is not vacuous)
 ASSUME TakeAlg(Ones(4), 0, 7, 10, 8).fault
 
+\* AisDecode reads text fields and byte-aligned binary tails at literal offsets: they are the ITU ones
+ASSUME Itu5.callsign = <<70, 42>> /\ Itu5.vessel_name = <<112, 120>> /\ Itu5.destination = <<302, 120>>
+ASSUME Itu19.name = <<143, 120>> /\ Itu21.name = <<43, 120>> /\ Itu24.vessel_name = <<40, 120>>
+ASSUME Itu24.vendor_id = <<48, 18>> /\ Itu24.model_serial = <<66, 24>> /\ Itu24.callsign = <<90, 42>>
+ASSUME Itu12.text[1] = 72 /\ Itu14.text[1] = 40
+ASSUME Itu6.data[1] = 8 * 11 /\ Itu8.data[1] = 8 * 7 /\ Itu17.p_data[1] = 8 * 15
+ASSUME Itu7.acks = <<40, 32>> /\ Itu20.reservations = <<40, 30>>
+\* type 24 part B: the 24-bit model/serial text overlays the 4-bit unit model code and the 20-bit serial number
+ASSUME Itu24.model_serial[1] = Itu24.unit_model_code[1]
+       /\ Itu24.unit_model_code[1] + Itu24.unit_model_code[2] = Itu24.serial_number[1]
+       /\ Itu24.serial_number[1] + Itu24.serial_number[2] = Itu24.model_serial[1] + Itu24.model_serial[2]
+
 \* C16: the state is the last 19 bits of the 168-bit message; the selector precedes it
 ASSUME \A L \in {Itu123, Itu4, Itu9, Itu18} : L.radio_status = <<149, 19>> /\ 149 + 19 = 168
 ASSUME Itu9.selector = <<148, 1>> /\ Itu18.selector = <<148, 1>>
